@@ -505,6 +505,11 @@ impl<'a> TxV<'a> {
                 return self.resolve_among(name, cands, args, fr).map(|f| (f, true));
             }
         }
+        // a local variable of that name hides the function (C scoping): the call does not denote the function any more
+        if fr.types.contains_key(name) {
+            vnote(format!("the call of `{}` names a local variable", name));
+            return None;
+        }
         self.resolve_among(name, self.funcs.get(name)?, args, fr).map(|f| (f, false))
     }
 
@@ -581,6 +586,11 @@ impl<'a> TxV<'a> {
                     // default argument: evaluated in the callee's declaration context (globals only), converted to the parameter type
                     let d = p.args().get(3)?;
                     let mut dfr = Frame { vals: HashMap::new(), types: HashMap::new(), ret: Ty::Void, this: None };
+                    // C++ / HLSL: the parameters declared so far (this one included) are in scope in a default argument and hide
+                    // globals of their name; they have no value there (using one is ill-formed): a mention reads nothing
+                    for q in &params[..=i] {
+                        dfr.types.insert(q.args()[0].atom().to_string(), self.ty(&q.args()[2])?);
+                    }
                     vals.push(self.eval_as(&pt, d, &mut dfr, gl, depth)?);
                     places.push(None);
                 }
